@@ -44,6 +44,7 @@ def build(e):
     raise ValueError(h)
 
 
+WITH_MESSAGE = False  # lines prefixed 'MSG ': a DomainError / CoordinateMissing outcome also carries the exception's text
 FLOAT_N = False      # lines prefixed 'NF ': the integer parameter n is passed as an integral float (3.0)
 
 
@@ -86,10 +87,10 @@ def show_val(v):
 def outcome(thunk, show=show_val):
     try:
         v = thunk()
-    except DomainError:
-        return 'DOMERR'
-    except CoordinateMissing:
-        return 'COORD'
+    except DomainError as ex:
+        return 'DOMERR' + ((' ' + str(ex)) if WITH_MESSAGE else '')
+    except CoordinateMissing as ex:
+        return 'COORD' + ((' ' + str(ex)) if WITH_MESSAGE else '')
     except RecursionError:
         return 'ERROR recursion'
     except Exception as ex:  # noqa: BLE001
@@ -223,6 +224,13 @@ def eq_laws(oa, ob, oc, oa2):
             return 'bad: equal Partials hash differently'
         if p1 == Partial(oa, 'v3') or not (p1 == Partial(oa, X.Variable('v2'))):
             return 'bad: Partial equality w.r.t. variable / spelling'
+        # names that are equal strings but different objects (built at run time, hence not interned)
+        n1, n2 = 'v' + str(2), ''.join(['v', '2'])
+        q1, q2 = Partial(oa, n1), Partial(oa, X.Variable(n2))
+        if n1 is not n2 and (not (q1 == q2) or not (q2 == q1) or not (q1 == p1) or hash(q1) != hash(q2) or q2 not in {q1}):
+            return 'bad: Partials over equal but distinct name strings compare unequal'
+        if not (X.Variable(n1) == X.Variable(n2)) or hash(X.Variable(n1)) != hash(X.Variable(n2)):
+            return 'bad: Variables over equal but distinct name strings compare unequal'
         try:
             early_p, early_d = Partial(oa, 'v2', compute_early=True), Differential(oa, compute_early=True)
         except OverflowError:
@@ -678,6 +686,44 @@ def run_line(line):
         except (OverflowError, ValueError, ZeroDivisionError):
             return 'SKIP'          # an intermediate leaves the double range (cos(inf)): no object to print
         return repr_tokens(repr(ld))
+    if cmd == 'NAMERT':
+        # every name the Variable constructor accepts prints in a form that reads back to an equal object
+        # (alone, inside an expression, inside a Partial and as a coordinate name of a Point)
+        for nm in GOOD_BAD_NAMES:
+            try:
+                v = X.Variable(nm)
+            except Exception:  # noqa: BLE001
+                continue
+            for o in (v, X.Sine(v), X.Add(v, X.Constant(1)), Partial(X.Sine(v), nm)):
+                try:
+                    back = eval(repr(o), dict(PUBLIC))
+                except Exception as ex:  # noqa: BLE001
+                    return 'bad: repr of an object over the accepted name %r does not evaluate (%s)' % (nm, type(ex).__name__)
+                if not (back == o) or repr(back) != repr(o) or str(o) != repr(o):
+                    return 'bad: repr of an object over the accepted name %r reads back unequal' % (nm,)
+            import unicodedata as _ud
+            import keyword as _kw
+            # a coordinate name "is a Python identifier" when it can be written as a keyword at all: the language
+            # compares identifiers in NFKC normal form (a fullwidth 'x' typed as a keyword IS x), and keywords are excluded
+            if nm.isidentifier() and _ud.normalize('NFKC', nm) == nm and not _kw.iskeyword(nm):
+                p_ = Point(**{nm: 1.5})
+                try:
+                    back = eval(repr(p_), dict(PUBLIC))
+                except Exception as ex:  # noqa: BLE001
+                    return 'bad: repr of a point with the coordinate name %r does not evaluate (%s)' % (nm, type(ex).__name__)
+                if not (back == p_):
+                    return 'bad: repr of a point with the coordinate name %r reads back unequal' % (nm,)
+        return 'ok'
+    if cmd == 'ERRCLASSES':
+        # the two exceptions are unrelated direct subclasses of Exception: neither can be caught as the other,
+        # nor as ValueError / ArithmeticError / KeyError
+        want = lambda c: (c, Exception, BaseException, object)   # noqa: E731
+        for c in (DomainError, CoordinateMissing):
+            if tuple(c.__mro__) != want(c):
+                return 'bad: %s has the bases %s' % (c.__name__, [k.__name__ for k in c.__mro__[1:]])
+        if smoothmath.DomainError is not DomainError or smoothmath.CoordinateMissing is not CoordinateMissing:
+            return 'bad: the public names are other classes'
+        return 'ok'
     if cmd == 'OBJEQ':
         # the last sentence of C06: Differential(e).component(v) == Partial(e, v) and
         # Differential(e).at(p) == LocatedDifferential(e, p), early or late, both ways round, with equal hashes
@@ -967,8 +1013,12 @@ def bad_param(line):
 
 
 def run_line(line):   # noqa: F811
-    global FLOAT_N
+    global FLOAT_N, WITH_MESSAGE
     FLOAT_N = False
+    WITH_MESSAGE = False
+    if line.startswith('MSG '):
+        WITH_MESSAGE = True
+        line = line[4:]
     if line.startswith('NF '):
         FLOAT_N = True
         line = line[3:]
